@@ -69,6 +69,13 @@ def _segment(r, n, style, p, positive, level):
             xs.append(x)
     elif style == "zeros":
         xs = [r.choice([0.0, 0.0, -0.0, level, level * 0.5]) for _ in range(n)]
+    elif style == "ulps":
+        # moves of a few units in the last place: comparisons written with a tolerance instead of == / < show here
+        x = r.choice([0.3, 10.1, 1234.5678, level])
+        for _ in range(n):
+            for _ in range(r.choice([0, 1, 1, 2])):
+                x = math.nextafter(x, math.inf if r.random() < 0.5 else -math.inf)
+            xs.append(x)
     else:
         raise ValueError(style)
     if positive:
@@ -136,6 +143,13 @@ def bar_stream(r, n, style=None, p=None):
         for _ in range(n):
             b = valid_bar(r, r.uniform(1, 2), spread=r.choice([0.03, 1e-17, 0.0]))
             out.append(tuple(v * sc for v in b[:4]) + (b[4],))
+    elif style == "ulpbars":
+        for x in _segment(r, n, "ulps", p, True, rand_price(r, 1, 1000)):
+            h = x
+            for _ in range(r.choice([0, 1, 2])):
+                h = math.nextafter(h, math.inf)
+            c = r.choice([x, h])
+            out.append((c, h, x, c, float(r.choice([0, 1, 5, 5]))))
     elif style == "gaps":
         x = rand_price(r, 5, 500)
         for _ in range(n):
